@@ -652,6 +652,10 @@ func successGuarded(b *ssa.BasicBlock, depth int) bool {
 		if strings.HasSuffix(path, "#1.Errors") && (strings.Contains(path, "ParseDSL") || fromParseDSL(bo)) {
 			return true
 		}
+		// errorListener.Errors.ErrorOrNil() == nil: by the accumulator's contract nil exactly when nothing was collected
+		if strings.HasSuffix(path, "#1.Errors.ErrorOrNil()") && (strings.Contains(path, "ParseDSL") || fromParseDSL(bo)) {
+			return true
+		}
 		// err == nil with err the error result of a guarded helper
 		if ex, ok := x.(*ssa.Extract); ok {
 			if call, ok := ex.Tuple.(*ssa.Call); ok {
@@ -684,6 +688,9 @@ func fromParseDSL(bo *ssa.BinOp) bool {
 		case *ssa.Call:
 			if c := x.Common().StaticCallee(); c != nil && c.Name() == "ParseDSL" {
 				found = true
+			}
+			for _, a := range x.Common().Args {
+				walk(a, d+1)
 			}
 		case *ssa.Extract:
 			walk(x.Tuple, d+1)
